@@ -25,6 +25,7 @@ import (
 	"fmt"
 	"math"
 	"os"
+	"path/filepath"
 	"sort"
 	"strconv"
 	"strings"
@@ -77,8 +78,6 @@ func (c Case) Show() string {
 	}
 	return c.Op + "(" + c.A.Show() + ")"
 }
-
-func (c Case) opaque() bool { return !c.A.Scalar() || (c.B != nil && !c.B.Scalar()) }
 
 // script statement for case number i (operand variables a<i>, b<i>)
 func (c Case) stmt(i int, vals *[]V, sb *strings.Builder) {
@@ -750,22 +749,49 @@ func Run(c *vh.Ctx) {
 		return
 	}
 
+	r.corpus()
 	pool := boundaryPool()
 	r.matrix(pool)
 	r.fastPaths(pool)
 	c.Res.Exhaustive = true
 	c.Res.ExhaustiveWhat = fmt.Sprintf("all %d binary operators × %d×%d boundary operands (+ the same-variable diagonal), %d unary operators/casts × %d operands, %d truthiness contexts × %d operands, literal-right-operand forms; every non-value outcome re-run outside try",
 		len(binOps), len(pool), len(pool), len(unOps), len(pool), len(truthCtx), len(pool))
-	if c.Thorough() {
-		r.random(100000)
-	} else {
-		r.random(4000)
-	}
+	r.random(c.N(4000, 400000))
 	if r.m != nil {
 		c.Res.ModelLines = r.m.Lines
 	}
 	// stable order of notes
 	sort.Strings(c.Res.Notes)
+}
+
+// corpus/C03/*.json: minimised past failures (one Case per file), run first
+func (r *runner) corpus() {
+	files, _ := filepath.Glob(filepath.Join("..", "corpus", "C03", "*.json"))
+	sort.Strings(files)
+	var cases []Case
+	for _, f := range files {
+		b, err := os.ReadFile(f)
+		if err != nil {
+			continue
+		}
+		var cs Case
+		if json.Unmarshal(b, &cs) != nil || cs.Kind == "" {
+			r.c.Note("corpus file %s is not a case", f)
+			continue
+		}
+		if cs.Kind == "truth" && cs.Op == "all" {
+			r.truthLaw([]V{cs.A})
+			continue
+		}
+		cases = append(cases, cs)
+		if cs.Kind == "bin" && cs.B != nil && !cs.Same {
+			r.matrixLawsOnly(uniqVals([]V{cs.A, *cs.B}))
+		}
+	}
+	if len(cases) > 0 {
+		r.process(cases)
+	}
+	r.c.HitN("corpus-cases", len(files))
 }
 
 func (r *runner) replay(cs Case) {
